@@ -118,6 +118,26 @@ def build(node, leaves=None):
         return Tensor(leaves.make(node), inputs, node[3])
     if k == "var":
         return Variable(node[1], dom_to_funsor(node[2]))
+    if k == "gauss":
+        from funsor.gaussian import Gaussian
+
+        _, ints, reals, order, rank, wflat, sflat = node[:7]
+        bshape = tuple(s for n, s in ints)
+        D = sum(int(np.prod(sh)) if sh else 1 for n, sh in reals)
+        w = np.array(wflat, dtype=float).reshape(bshape + (rank,))
+        S = np.array(sflat, dtype=float).reshape(bshape + (D, rank))
+        if leaves.readonly:
+            w.flags.writeable = False
+            S.flags.writeable = False
+        for arr in (w, S):
+            leaves.arrays.append((arr, arr.tobytes(), arr.shape, arr.dtype, arr.strides))
+        doms = {n: Bint[s] for n, s in ints}
+        doms.update({n: Reals[tuple(sh)] for n, sh in reals})
+        # batch dims follow the order of the integer inputs, event dims that of the real inputs
+        int_order = [n for n in order if n in dict(ints)]
+        real_order = [n for n in order if n in dict(reals)]
+        assert int_order == [n for n, s in ints] and real_order == [n for n, sh in reals]
+        return Gaussian(white_vec=w, prec_sqrt=S, inputs=OrderedDict((n, doms[n]) for n in order))
     if k == "un":
         x = B(node[2])
         op = node[1]
@@ -158,7 +178,10 @@ def build(node, leaves=None):
         x = B(node[2])
         vs = []
         for n, s in node[3]:
-            vs.append(n if (n in x.inputs and (len(n) + s) % 2 == 0) else Variable(n, Bint[s]))
+            if isinstance(s, (tuple, list)):
+                vs.append(Variable(n, Reals[tuple(s[1])]))
+            else:
+                vs.append(n if (n in x.inputs and (len(n) + s) % 2 == 0) else Variable(n, Bint[s]))
         return x.reduce(BINARY[node[1]], frozenset(vs))
     if k == "sub":
         x = B(node[1])
@@ -192,7 +215,7 @@ def build(node, leaves=None):
     if k == "integrate":
         from funsor.integrate import Integrate
 
-        vs = frozenset(Variable(n, Bint[s]) for n, s in node[3])
+        vs = frozenset(Variable(n, Reals[tuple(s[1])]) if isinstance(s, (tuple, list)) else Variable(n, Bint[s]) for n, s in node[3])
         return Integrate(B(node[1]), B(node[2]), vs)
     if k == "approx":
         m, g = B(node[2]), B(node[3])
